@@ -3,11 +3,21 @@ Proof: lean/PegtlVerif/Props/C09.lean (every match() body refines Spec.expandKin
 including the blamed rule of global failures; two-form equivalences).
 Tie: full-trace differential run on every derived rule × probe sub-rules (consuming-before-failing, nullable, raising),
 bounds 0..3.  Oracle: semEval on the documented expansion vs the real result / consumed prefix / blamed rule."""
+from .diffrun import Config
 from . import engine, profiles
 from .engine import oracle_sem
 
 ORACLES = [('sem', oracle_sem)]
 AM = ((1, 'r'), (1, 'o'), (0, 'o'))
+
+
+def leaf_inputs(rng, g, tier):
+    """Every string over { '1', 'a' } up to length 5 (runs of a counted character of every length around Min / Max, keywords, digit strings) and a
+    sample over the wider alphabet of the leaf corpus."""
+    from . import corpus
+    base = corpus.all_strings([49, 97], 5)
+    more = corpus.sample_inputs(rng, corpus.ZOO_ALPHA, 3, 40 if tier == 'quick' else 250, longer=2)
+    return base + [d for d in more if d not in base] + [b'...', b'....', b'255', b'256', b'a1a1', b'\xc3\xa9\xc3\xa9']
 
 
 def run(tier: str) -> int:
@@ -26,6 +36,11 @@ def run(tier: str) -> int:
         profiles.random_profile('rnd', False, True, 16, 100, ORACLES, actions_mode='void',
                                 inputs=profiles.inputs_exhaustive(4, 6, cap_q=150, cap_t=1000), per_tu=2, use_sem=True,
                                 configs=profiles.amr_configs(ams=AM)),
+        # the leaf rules that are documented as optimised forms of a combination (rep_one_min_max, string, istring-free atoms, ranges, keyword,
+        # two / three, predicates …) against the formalism's accept sets — over a memory input and over a buffer_input fed byte by byte,
+        # where a leaf has to ask for every byte it looks at
+        profiles.atoms_profile('leaves', ORACLES, per_tu=3, use_sem=True, exclude=('bol', 'bof', 'istring', 'istring0'), inputs=leaf_inputs,
+                               configs=lambda g, root, tier: [Config(root, 1, 'r', 'lf_crlf', 0, 1, 0), Config(root, 1, 'r', 'lf_crlf', 2, 1, 0)]),
     ]
     from .c09_doc import doc_part
     return engine.run_engine('C09', tier, ['PegtlVerif.Props.C09'], ps, extra=lambda v, cov, rng: doc_part(v, cov, rng, tier))
